@@ -17,8 +17,8 @@ LEVEL = "exploration"
 RULE = (
   "case=seed: generated scene with >=1 geom of each type (plane finite/infinite, hfield, sphere, capsule, ellipsoid, cylinder, "
   "box, convex/non-convex/STL meshes) spread over static, welded, free, hinged and mocap bodies, random groups 0..5, "
-  "alpha-0 geoms and materials; 3 worlds with different poses; ~230 rays of classes random / aimed / inside / axis / "
-  "parallel-to-face / tangent / fan / non-unit; 4 filter settings (group mask x flg_static) with per-ray bodyexclude; brute "
+  "alpha-0 geoms and materials; 3 worlds with different poses; ~240 rays of classes random / aimed / inside / axis / "
+  "parallel-to-face / tangent / fan / mesh-tip / non-unit; 4 filter settings (group mask x flg_static) with per-ray bodyexclude; brute "
   "and BVH kernels, shared and per-world ray arrays, mjw.ray single-ray API. Non-trivial: >=40 reference hits on >=5 geom "
   "types; distinct by hash(xml, qpos, rays)."
 )
@@ -119,6 +119,23 @@ def make_rays(rng, mjm, mjd):
   for _ in range(nfan):
     g = rng.integers(ng)
     add(o, _unit(xpos[g] + rng.normal(size=3) * 0.3 - o), "fan")
+  meshes = [g for g in range(ng) if gtype[g] == rs.GT.mjGEOM_MESH]
+  for _ in range(12 if meshes else 0):  # towards the vertex of a mesh that lies farthest outside its centred half-extent box
+    g = meshes[rng.integers(len(meshes))]
+    mid = int(mjm.geom_dataid[g])
+    Vm = mjm.mesh_vert[mjm.mesh_vertadr[mid] : mjm.mesh_vertadr[mid] + mjm.mesh_vertnum[mid]]
+    half = 0.5 * (Vm.max(axis=0) - Vm.min(axis=0))
+    exc = np.abs(Vm) - half[None]
+    vi, ax = np.unravel_index(np.argmax(exc), exc.shape)
+    tgt_l = 0.9 * Vm[vi] + 0.1 * Vm.mean(axis=0)
+    j = (ax + 1 + rng.integers(2)) % 3
+    dl = np.zeros(3)
+    dl[j] = rng.choice([-1.0, 1.0])
+    dl += rng.normal(size=3) * 0.05
+    dl[ax] = 0.0
+    dl = _unit(dl)
+    R = xmat[g]
+    add(xpos[g] + R @ (tgt_l - dl * rng.uniform(0.8, 2.0)), R @ dl, "meshtip")
   for _ in range(10):  # non-unit directions (diagnostic class)
     g = rng.integers(ng)
     oo = xpos[g] + _unit(rng.normal(size=3)) * rng.uniform(1.0, 3.0)
@@ -136,6 +153,16 @@ def hit_class(ref, g, dvec, normal, pnt, dist):
   t = rs.TYPE_NAMES[int(ref.gtype[g])]
   if t == "mesh" and float(dvec @ normal) > 1e-9:
     return "mesh-backface"
+  if t == "mesh":
+    # hit point outside the box of half-extents 0.5*(max-min) centred on the geom origin (the scene BVH's mesh bound)
+    mjm = ref.mjm
+    mid = int(mjm.geom_dataid[g])
+    V = mjm.mesh_vert[mjm.mesh_vertadr[mid] : mjm.mesh_vertadr[mid] + mjm.mesh_vertnum[mid]]
+    half = 0.5 * (V.max(axis=0) - V.min(axis=0))
+    R = ref.xmat[g].reshape(3, 3)
+    hp = R.T @ (pnt + dist * dvec - ref.xpos[g])
+    if np.any(np.abs(hp) > half + 1e-6):
+      return "mesh-outside-centred-aabb"
   if t == "hfield":
     R = ref.xmat[g].reshape(3, 3)
     nl = R.T @ normal
@@ -204,7 +231,7 @@ class Judge:
 # reference-hit classes on which the BVH kernel is known (from reading ray.py / bvh.py) to follow different rules than the
 # brute-force kernel: triangle back faces are culled and the hfield BVH mesh has no sides / base.  Mismatches there get one
 # mechanism signature each so that they can be triaged once; every other BVH mismatch keeps its own signature.
-BVH_DEVIATION = ("mesh-backface", "hfield-side-base", "hfield-backface")
+BVH_DEVIATION = ("mesh-backface", "hfield-side-base", "hfield-backface", "mesh-outside-centred-aabb")
 
 
 def _sig(tag, c, kind, hc, got_type=None):
@@ -487,7 +514,7 @@ def run_case(case):
 def requirements(agg, tier):
   unmet = []
   cov = agg["cover"]
-  for t in ("plane", "hfield-top", "hfield-side-base", "sphere", "capsule", "ellipsoid", "cylinder", "box", "mesh", "mesh-backface"):
+  for t in ("plane", "hfield-top", "hfield-side-base", "sphere", "capsule", "ellipsoid", "cylinder", "box", "mesh", "mesh-backface", "mesh-outside-centred-aabb"):
     if cov.get("hit:" + t, 0) < 20:
       unmet.append(f"fewer than 20 judged reference hits of class {t}")
   for c in ("random", "aimed", "inside", "axis", "parallel", "tangent", "fan"):
